@@ -74,6 +74,10 @@ pub struct Spec {
     pub receipts: BTreeMap<Txid, &'static str>,
     /// Set when the spec can no longer follow (after a reported violation).
     pub lost: bool,
+    /// Whether the recent-block look-ups (C19) are compared after every step. Off in the checks of other
+    /// properties: there the *consequences* of a wrong look-up are what their oracles must see (a violation
+    /// ends the exploration of its branch).
+    pub check_recent_blocks: bool,
 }
 
 const ALL_T: &[&str] = &["C01", "C02", "C03", "C04", "C06", "C07", "C08", "C09", "C11"];
@@ -103,6 +107,7 @@ impl Spec {
             last_event_was_disconnect: false,
             receipts: BTreeMap::new(),
             lost: false,
+            check_recent_blocks: false,
         };
         let tip = w.env.lock().tip;
         s.reset_chain_view(w, tip);
@@ -269,7 +274,9 @@ impl Spec {
             });
         }
         self.compare_db(obs, w, &mut out);
-        self.compare_recent_blocks(w, &mut out);
+        if self.check_recent_blocks {
+            self.compare_recent_blocks(w, &mut out);
+        }
         if !out.is_empty() {
             self.lost = true;
         }
